@@ -13,6 +13,10 @@ CHECKS = {
   text="Machine-checked theorems (Props/C16.v) over the model regenerated from common/bytes/bytes.go: split-then-join is the identity on every int32, join-then-split on every int8 quadruple, byte k holds bits 8k..8k+7 - proved by two's-complement bit extensionality on Z, for all 2^32 values at once. Tie: regeneration each run + execution of the extracted model against the Go functions; thorough tier also sweeps all 2^32 values in Go against encoding/binary as a search.",
   note=NOTE_COMMON + "tools/gotrans + Base/GoInt.v (validated per run).",
   tech="Coq proof (bit extensionality) over a translator-regenerated model + translation validation", ref="DESIGN.md 5/C16"),
+ 'C13': dict(
+  text="Machine-checked theorems (Props/C13.v, 16) about hand-written faithful Gallina models of comp.LRUCache and of the generic key-value LRU, for all histories of any length satisfying the usage contract (a boolean predicate over the history: aligned-length non-overlapping pushes, writes inside one resident line): refinement of a map+recency-list reference (no panic, equal outputs), read-returns-last-write, present-iff-covered, PushLine into a full cache displaces exactly the least recently used line and reports its current contents, capacity restored after the reported victim is evicted, no duplicate lines; the overlapping-lines stale read is a kernel-checked refutation. Tie: extracted models vs the real Go types on bounded-exhaustive (length 7) and random histories (geometries up to 128B/4KB) each run, recency order included.",
+  note=NOTE_COMMON + "The models are hand-written: the tie is a sampled correspondence. Aliasing of Go data slices is outside the model (the harness copies).",
+  tech="Coq proof (refinement to an abstract LRU spec by induction over histories) on a hand-written model + correspondence check", ref="DESIGN.md 5/C13"),
  'C14': dict(
   text="Machine-checked theorems (Props/C14.v, 31) about hand-written faithful Gallina models of SimpleBus, BufferedBus and Queue, for all histories of any length and all capacities: conservation/exactly-once, FIFO order, Pick-first, one-cycle latency, capacity under the CanAdd discipline, Clean, conditional Revert; the unconditional Revert clause is refuted by a kernel-checked witness (known finding, dead code). Tie: the extracted models and the real Go types execute the same bounded-exhaustive (depth 5-7) and random histories each run and every output is compared; the property clauses are also evaluated on the implementation's outputs to classify a disagreement.",
   note=NOTE_COMMON + "The models are hand-written: the tie is a sampled correspondence (distribution in evidence). Queue.Iterator's goroutine is modelled as a snapshot.",
